@@ -318,8 +318,16 @@ func runCase(run *evid.Run, idx int) {
 			}
 			mf := []byte(fmt.Sprintf(`{"schemaVersion":2,"mediaType":%q,%s"config":{"mediaType":"application/octet-stream","digest":%q,"size":2},"layers":[],"subject":{"mediaType":"application/x-opaque","digest":%q,"size":%d},"annotations":{"i":"%d-%d"}}`,
 				model.MTImage, at, model.Digest([]byte("{}")), subject, len(subj), idx, i))
+			mt := model.MTImage
+			if (i+idx/3)%4 == 3 {
+				// an image index refers to its subject just as well - also one that lists no manifests (yet)
+				mt = model.MTIndex
+				mf = []byte(fmt.Sprintf(`{"schemaVersion":2,"mediaType":%q,%s"manifests":[],"subject":{"mediaType":"application/x-opaque","digest":%q,"size":%d},"annotations":{"i":"%d-%d"}}`,
+					model.MTIndex, at, subject, len(subj), idx, i))
+				run.Count("referrers_that_are_childless_indexes", 1)
+			}
 			put(func(reg ociregistry.Interface) {
-				if _, err := reg.PushManifest(bg, name, "", mf, model.MTImage); err != nil {
+				if _, err := reg.PushManifest(bg, name, "", mf, mt); err != nil {
 					panic(fmt.Sprintf("setup: referrer manifest: %v", err))
 				}
 			})
